@@ -90,7 +90,7 @@ package table
 //@   ensures result == tcmp(a, b)
 
 //@ func (*blockWriter).append
-//@   props C06 C13
+//@   props C06
 //@   safety off
 //@   requires !sameblock(key, w.prevKey) && len(key) <= 1099511627776 && len(value) <= 1099511627776
 //@   ensures [C06,C13:remembers-key] err == nil ==> (w.prevKey == key && w.nEntries == old(w.nEntries) + 1)
@@ -107,7 +107,7 @@ package table
 //@   ensures [C06,C13:entry-count-kept] w.nEntries == old(w.nEntries)
 
 //@ func (*Writer).Append
-//@   props C06 C13
+//@   props C06
 //@   safety off
 //@   requires !sameblock(key, w.dataBlock.prevKey) && len(key) <= 1099511627776 && len(value) <= 1099511627776
 //@   ensures [C06,C13:strictly-increasing] (result == nil && old(w.nEntries) > 0) ==> tcmp(old(bytes(w.dataBlock.prevKey)), old(bytes(key))) < 0
@@ -154,3 +154,38 @@ package table
 //@   props C13
 //@   safety off
 //@   ensures [C13:handle-decoding] forall o, l uint64 :: (uvat(src, 0, o) && uvat(src, uvlen(o), l)) ==> (ret0.offset == o && ret0.length == l && ret1 == uvlen(o) + uvlen(l))
+
+// Block entries: shared-prefix length, unshared key length, value length as varints, then the unshared key bytes
+// and the value bytes.
+//@ spec func entryAt(b []byte, o int, sh int, key []byte, value []byte) bool = 0 <= sh && sh <= len(key) && uvat(b, o, uint64(sh)) && uvat(b, o + uvlen(uint64(sh)), uint64(len(key) - sh)) && uvat(b, o + uvlen(uint64(sh)) + uvlen(uint64(len(key) - sh)), uint64(len(value))) && bytes(b[o + uvlen(uint64(sh)) + uvlen(uint64(len(key) - sh)) + uvlen(uint64(len(value))) : o + uvlen(uint64(sh)) + uvlen(uint64(len(key) - sh)) + uvlen(uint64(len(value))) + (len(key) - sh)]) == bytes(key[sh:]) && bytes(b[o + uvlen(uint64(sh)) + uvlen(uint64(len(key) - sh)) + uvlen(uint64(len(value))) + (len(key) - sh) : o + uvlen(uint64(sh)) + uvlen(uint64(len(key) - sh)) + uvlen(uint64(len(value))) + (len(key) - sh) + len(value)]) == bytes(value)
+//@ func sharedPrefixLen
+//@   props C13
+//@   safety off
+//@   loop 1
+//@     invariant 0 <= i && i <= len(a) && i <= len(b) && (forall k int :: 0 <= k && k < i ==> a[k] == b[k])
+//@   ensures [C13:common-prefix] 0 <= result && result <= len(a) && result <= len(b) && (forall k int :: 0 <= k && k < result ==> a[k] == b[k])
+//@ func (*blockWriter).append
+//@   props C13
+//@   safety off
+//@   requires bwf(w.buf) && w.buf.off == 0 && len(w.scratch) >= 30 && w.restartInterval > 0 && w.nEntries >= 0
+//@   requires !sameblock(key, w.buf.buf) && !sameblock(value, w.buf.buf) && !sameblock(w.scratch, w.buf.buf) && !sameblock(key, w.scratch) && !sameblock(value, w.scratch) && !sameblock(key, w.prevKey) && !sameblock(w.prevKey, w.buf.buf) && !sameblock(w.prevKey, w.scratch) && !sameblock(value, w.prevKey)
+//@   requires len(key) <= 1099511627776 && len(value) <= 1099511627776 && len(w.buf.buf) <= 1099511627776
+//@   at return
+//@     use ext(w.buf.buf[len(old(w.buf.buf)) : len(old(w.buf.buf)) + uvlen(uint64(nShared))], w.scratch[0 : uvlen(uint64(nShared))])
+//@     use ext(w.buf.buf[len(old(w.buf.buf)) + uvlen(uint64(nShared)) : len(old(w.buf.buf)) + uvlen(uint64(nShared)) + uvlen(uint64(len(key) - nShared))], w.scratch[uvlen(uint64(nShared)) : uvlen(uint64(nShared)) + uvlen(uint64(len(key) - nShared))])
+//@     use ext(w.buf.buf[len(old(w.buf.buf)) + uvlen(uint64(nShared)) + uvlen(uint64(len(key) - nShared)) : len(old(w.buf.buf)) + uvlen(uint64(nShared)) + uvlen(uint64(len(key) - nShared)) + uvlen(uint64(len(value)))], w.scratch[uvlen(uint64(nShared)) + uvlen(uint64(len(key) - nShared)) : uvlen(uint64(nShared)) + uvlen(uint64(len(key) - nShared)) + uvlen(uint64(len(value)))])
+//@     use ext(w.buf.buf[len(old(w.buf.buf)) + uvlen(uint64(nShared)) + uvlen(uint64(len(key) - nShared)) + uvlen(uint64(len(value))) : len(old(w.buf.buf)) + uvlen(uint64(nShared)) + uvlen(uint64(len(key) - nShared)) + uvlen(uint64(len(value))) + (len(key) - nShared)], key[nShared:])
+//@     use ext(w.buf.buf[len(old(w.buf.buf)) + uvlen(uint64(nShared)) + uvlen(uint64(len(key) - nShared)) + uvlen(uint64(len(value))) + (len(key) - nShared) : len(old(w.buf.buf)) + uvlen(uint64(nShared)) + uvlen(uint64(len(key) - nShared)) + uvlen(uint64(len(value))) + (len(key) - nShared) + len(value)], value)
+//@   guarantees [C13:entry-encoding] err == nil ==> entryAt(w.buf.buf, len(old(w.buf.buf)), nShared, key, value)
+//@   guarantees [C13:restart-points-share-nothing] (err == nil && old(w.nEntries) % old(w.restartInterval) == 0) ==> nShared == 0
+//@   guarantees [C13:shared-prefix-is-common] err == nil ==> (forall k int :: 0 <= k && k < nShared ==> old(w.prevKey)[k] == key[k])
+
+// Decoding: where the three varints of an entry stand at an offset and the entry fits below the restart array,
+// block.entry returns exactly the parts: the shared length, the unshared key bytes and the value bytes, as slices of
+// the block at the positions the writer put them.
+//@ func (*block).entry
+//@   props C13
+//@   safety off
+//@   requires 0 <= offset && b.restartsOffset <= len(b.data) && len(b.data) <= 1099511627776
+//@   ensures [C13:entry-decoding] forall sh, ul, vl uint64 :: (sh <= 1099511627776 && ul <= 1099511627776 && vl <= 1099511627776 && uvat(b.data, offset, sh) && uvat(b.data, offset + uvlen(sh), ul) && uvat(b.data, offset + uvlen(sh) + uvlen(ul), vl) && offset + uvlen(sh) + uvlen(ul) + uvlen(vl) + int(ul) + int(vl) <= b.restartsOffset) ==> (err == nil && nShared == int(sh) && n == uvlen(sh) + uvlen(ul) + uvlen(vl) + int(ul) + int(vl) && sameslice(key, b.data[offset + uvlen(sh) + uvlen(ul) + uvlen(vl) : offset + uvlen(sh) + uvlen(ul) + uvlen(vl) + int(ul)]) && sameslice(value, b.data[offset + uvlen(sh) + uvlen(ul) + uvlen(vl) + int(ul) : offset + uvlen(sh) + uvlen(ul) + uvlen(vl) + int(ul) + int(vl)]))
+//@   ensures [C13:end-of-entries] offset == b.restartsOffset ==> (err == nil && n == 0 && isnil(key))
